@@ -1209,6 +1209,150 @@ example :
       .reader, .reader, .reader, .reader]
     s.finished = [10] ∧ s.chan = [0] ∧ rejected s = [1] ∧ s.taken = [] := by decide
 
+/-! #### the `late` fate: a close between the pop and `dispatchChannel`'s tests (driven by the ops `chhold` / `chrel`:
+the harness holds the reader in `createValueAndVerify` → `Tree()` through the tree store's lock) -/
+
+/-- `closing` is never taken back -/
+theorem closing_stable_step (s s' : St) (a : Act) (hs : step s a = some s') (hc : s.closing = true) :
+    s'.closing = true := by
+  cases a with
+  | accept c m => simp [step, hc] at hs; subst hs; first | exact hc | rfl
+  | close => simp [step] at hs; subst hs; rfl
+  | take =>
+    simp only [step] at hs
+    split at hs <;> simp at hs
+    subst hs; first | exact hc | rfl
+  | reader =>
+    simp only [step] at hs
+    split at hs
+    · simp [hc] at hs; subst hs; first | exact hc | rfl
+    · simp at hs; subst hs; first | exact hc | rfl
+    · simp [hc] at hs
+      split at hs <;> simp at hs <;> subst hs <;> first | exact hc | rfl
+    · split at hs <;> simp at hs; subst hs; first | exact hc | rfl
+    · simp at hs
+
+/-- once the instance is closing no step sends into the protocol's channel -/
+theorem put_closing_step (s s' : St) (a : Act) (hs : step s a = some s') (hc : s.closing = true) :
+    put s' = put s := by
+  cases a with
+  | accept c m => simp [step, hc] at hs; subst hs; rfl
+  | close => simp [step] at hs; subst hs; rfl
+  | take =>
+    simp only [step] at hs
+    split at hs <;> simp at hs
+    subst hs; rfl
+  | reader =>
+    simp only [step] at hs
+    split at hs
+    · simp [hc] at hs; subst hs; rfl
+    · simp at hs; subst hs; rfl
+    · simp [hc] at hs
+      split at hs <;> simp at hs <;> subst hs <;> simp [put, fated]
+    · split at hs <;> simp at hs; subst hs; rfl
+    · simp at hs
+
+/-- **nothing reaches the protocol's channel after the close**: from a state in which `closeDispatch` has
+happened, under every continuation (hand-overs, reader steps — among them the step of a reader that popped
+its message *before* the close —, reads of the channel) the sequence of messages ever sent into the channel
+stays what it was; what the protocol can still read is what sat in the channel at the close. -/
+theorem c05_chan_nothing_put_after_close (c : Nat) (as bs : List Act) :
+    let s := run { cap := c } as
+    s.closing = true →
+      put (run s bs) = put s ∧ (run s bs).taken ++ (run s bs).chan = s.taken ++ s.chan ∧
+      (run s bs).closing = true := by
+  intro s hc
+  have key : ∀ (bs : List Act) (t : St), t.closing = true → put (run t bs) = put t ∧ (run t bs).closing = true := by
+    intro bs
+    induction bs with
+    | nil => intro t ht; exact ⟨rfl, ht⟩
+    | cons a bs ih =>
+      intro t ht
+      simp only [run]
+      split
+      · rename_i t' hst
+        have h1 := put_closing_step t t' a hst ht
+        have h2 := closing_stable_step t t' a hst ht
+        have := ih t' h2
+        exact ⟨this.1.trans h1, this.2⟩
+      · exact ih t ht
+  have hI : Inv s := inv_run as _ (inv_init c)
+  have hI' : Inv (run s bs) := inv_run bs _ hI
+  obtain ⟨k1, k2⟩ := key bs s hc
+  exact ⟨k1, by rw [hI'.chan, hI.chan, k1], k2⟩
+
+/-- **a message the close overtook is gone**: with distinguishable messages, a message the reader had popped
+when the instance was closed (fate `late`) is, under every continuation, not read by the protocol, not in
+the channel, not carried and not back in the queue. -/
+theorem c05_chan_late_gone (c : Nat) (as : List Act) (m : Nat) :
+    let s := run { cap := c } as
+    (cmsgs s.accepted).Nodup → m ∈ fated .late s.log →
+      m ∉ s.taken ∧ m ∉ s.chan ∧ m ∉ carrying s ∧ (true, m) ∉ s.queue := by
+  intro s hn hm
+  have h : Inv s := inv_run as _ (inv_init c)
+  have hacc : cmsgs s.accepted = (s.log.map (·.1) ++ carrying s) ++ cmsgs s.queue := by
+    rw [h.order, cmsgs_append, h.clog]
+  rw [hacc] at hn
+  have hlate : (m, Fate.late) ∈ s.log := (mem_fated _ _ _).mp hm
+  have hlog : m ∈ s.log.map (·.1) := List.mem_map.mpr ⟨_, hlate, rfl⟩
+  have hn1 := List.nodup_append.mp hn
+  have hn2 := List.nodup_append.mp hn1.1
+  have hput : m ∉ put s := by
+    intro hp
+    have := fate_unique s.log hn2.1 m _ _ ((mem_fated _ _ _).mp hp) hlate
+    exact absurd this (by decide)
+  have hput' : m ∉ s.taken ++ s.chan := by rw [h.chan]; exact hput
+  refine ⟨fun x => hput' (List.mem_append_left _ x), fun x => hput' (List.mem_append_right _ x), ?_, ?_⟩
+  · intro x; exact hn2.2.2 m hlog m x rfl
+  · intro x
+    have : m ∈ cmsgs s.queue := by
+      simp only [cmsgs, List.mem_map, List.mem_filter]; exact ⟨(true, m), ⟨x, rfl⟩, rfl⟩
+    exact hn1.2.2 m (List.mem_append_left _ hlog) m this rfl
+
+/-- **the tests are made when the message is dispatched, not when it is popped**: whatever happened between
+the pop and the reader's next step, that step looks at the channel and at `closing` as they are *then* —
+room and open: the message goes into the channel; room and closing: it does not. -/
+theorem c05_chan_tests_at_dispatch (s : St) (m : Nat) (hp : s.pc = .sending m) (hroom : s.chan.length < s.cap) :
+    step s .reader = some (if s.closing
+      then { s with pc := .top, log := s.log ++ [(m, .late)] }
+      else { s with pc := .top, chan := s.chan ++ [m], log := s.log ++ [(m, .put)] }) := by
+  simp only [step, hp, hroom, if_true]
+  split <;> rfl
+
+/-- non-vacuity (the schedule of the ops `chhold 1, chclose, chrel`): popped, then closed, then the reader's
+step: message 1 is `late`, the channel stays empty, the reader stops; and (`chhold 2` on a full channel of one
+place, the protocol reads, `chrel`) the message popped while the channel was full finds room at its dispatch -/
+example :
+    let s := run { cap := 1 } [.accept true 1, .reader, .close, .reader, .reader]
+    fated .late s.log = [1] ∧ s.chan = [] ∧ put s = [] ∧ s.closing = true ∧ s.pc = .stopped ∧ (cmsgs s.accepted).Nodup := by
+  decide
+example :
+    let s := run { cap := 1 } [.accept true 1, .reader, .reader, .accept true 2, .reader, .take, .reader]
+    s.taken = [1] ∧ s.chan = [2] ∧ rejected s = [] := by decide
+
+/-- the variant without the look at `closing` (`if out.Len() < out.Cap() { out.Send(m) }`): the reader's step on a
+channel message sends whenever there is room -/
+def stepUnchecked (s : St) : Act → Option St
+  | .reader => match s.pc with
+      | .sending m =>
+          if s.chan.length < s.cap then some { s with pc := .top, chan := s.chan ++ [m], log := s.log ++ [(m, .put)] }
+          else some { s with pc := .top, log := s.log ++ [(m, .full)] }
+      | _ => step s .reader
+  | a => step s a
+
+def runUnchecked (s : St) : List Act → St
+  | [] => s
+  | a :: as => match stepUnchecked s a with
+      | some s' => runUnchecked s' as
+      | none => runUnchecked s as
+
+/-- negation witness: in that variant a message arrives in the protocol's channel **after** the close
+(the protocol has shut down and may have closed the channel: `send on closed channel`) -/
+theorem c05_chan_unchecked_variant_sends_after_close :
+    let s0 := runUnchecked { cap := 1 } [.accept true 1, .reader, .close]
+    let s := runUnchecked s0 [.reader]
+    s0.closing = true ∧ put s0 = [] ∧ put s = [1] ∧ s.chan = [1] := by decide
+
 end Chan
 
 /-! ### who starts the reader, and registering an instance twice (`Model/C05Reg.lean`) -/
